@@ -29,8 +29,18 @@ def run(tier, rep):
     for hn, sp in {"L1": H.L1(16, 8, 1, 2, 1, 2), "L2": H.L2(16, 8), "H3": H.H3()}.items():
         for pol in POLS:
             wall[(hn, pol, "WALL")] = dict(spec=sp, user=[["reset"], ["step"], ["step"], ["step"], ["stop"]], policy=pol, clock="WALL")
+    # expected delays changed between two episodes of one graph object (BUFFER's expected arrival must follow)
+    sjobs = []
+    two = lambda op: [["reset"]] + [["step"]] * 3 + [["stop"], op, ["reset"]] + [["step"]] * 4 + [["stop"]]  # noqa
+    for bi, (bn, b) in enumerate([x for x in H.fasync_bases() if x[0].startswith(("chain.NB", "chainX.NB", "fan.NB"))]):
+        if tier == "quick" and (bi + sd) % 4 != 0:
+            continue
+        for op in (["set_delay", "edge", 0, 9], ["set_delay", "edge", 0, 0], ["set_delay", "node", "a", 5]):
+            sjobs.append((f"{bn}|{op[1]}{op[2]}={op[3]}", dict(spec=b, user=two(op), policy=POLS[(bi + sd) % 3])))
     bound = 1 if tier == "quick" else 2
     with Pool() as pool:
+        st = run_family(pool, sjobs, JUDGE)
+        report(rep, "set_delay_between_episodes_d0", st, 0, JUDGE, family=True)
         st = run_family(pool, fam_jobs, JUDGE)
         report(rep, "family_dyadic_d0", st, 0, JUDGE, family=True)
         st = run_family(pool, dec_jobs, JUDGE)
